@@ -172,6 +172,21 @@ def standin(rep: Report):
                 diff = [k for k in set(a) | set(b) if a.get(k) != b.get(k)]
                 si.failures.append({"input": c, "site": f"differs:{name}", "what": f"[{name}, preferred encoding {d['encoding']}, utf8_mode {d['utf8_mode']}] parse_file and parse_string differ in {diff}: "
                                     f"file={ {k: a.get(k) for k in diff} } string={ {k: b.get(k) for k in diff} }"[:400], "observed": {"file": a, "string": b}})
+        if name == ENVS[0][0]:
+            # the same path re-written and parsed again in one process (an edited script): no outcome may depend on what the path held before
+            inv = [c for c in contents if "\r" not in c][::2]
+            p2 = subprocess.run([VENV_PY, os.path.join(VERIF, "harness", "file_vs_string.py")], input=json.dumps({"contents": inv, "same_path": True}), capture_output=True,
+                                text=True, env=e, timeout=1800, cwd="/")
+            if p2.returncode != 0:
+                rep.undecided("C12.standin.same-path", "bounded", "re-parse one path with changing contents", "cpython-exec", p2.stderr[-600:])
+            else:
+                d3 = json.loads([ln for ln in p2.stdout.splitlines() if ln.startswith("{")][-1])
+                for c, r in zip(inv, d3["results"]):
+                    si.evaluations += 1
+                    if r["file"] != r["string"]:
+                        diff = [k for k in set(r["file"]) | set(r["string"]) if r["file"].get(k) != r["string"].get(k)]
+                        si.failures.append({"input": c, "site": "differs:same-path", "what": f"after other contents were parsed from the same path, parse_file and parse_string differ in {diff}: "
+                                            f"file={ {k: r['file'].get(k) for k in diff} } string={ {k: r['string'].get(k) for k in diff} }"[:400], "observed": r})
         if ref is None:
             ref = d["results"]
         elif [r["file"] for r in d["results"]] != [r["file"] for r in ref]:
